@@ -42,6 +42,15 @@ func runC02(c *Ctx) {
 	ruleRouteAuthenticatorsBuilt(c, "R02.6")
 	ruleRoutableAPIDelegates(c, "R02.2", "Authorizer", "AuthenticatorsFor")
 	ruleAuthenticatorsByDefinitionName(c, "R02.2")
+	// the scopes a satisfied alternative hands to the handler are the union of ALL its schemes' scopes: the helper that
+	// builds the union visits every entry of every list (a duplicate is skipped, never a reason to stop)
+	if su := c.P.FnOpt("rt/middleware.stringSliceUnion"); su != nil {
+		ls := sliceLoops(su, nil)
+		c.obRF("R02.6", su, "union-loops", len(ls) >= 2, "stringSliceUnion ranges over the lists and over each list's entries", fmt.Sprintf("%d loops", len(ls)))
+		for _, l := range ls {
+			c.obI("R02.6", l.Test, "union-visits-every-entry", l.noEarlyExit(), "the scope union leaves its loops only when the elements are exhausted: no entry after a duplicate is dropped", "a loop of stringSliceUnion can be left from its body (break/return): the entries that follow are lost")
+		}
+	}
 	ruleBearerCallbackGetsScopes(c, "R02.6")
 	ruleHandlerTableRead(c, "R02.1")
 	ruleResetAuthShadows(c, "R02.5")
